@@ -418,7 +418,63 @@ def rule_counter_update(ctx, rule='R06.9'):
     ctx.covered(rule, 'element counters of array fields are stored for every field read, whatever its size', n, floor=1)
 
 
+def rule_empty_delta(ctx, rule='R06.10'):
+    """R06.10: appended snapshots are stored as the difference to the first one. reb_binary_diff returns an empty buffer
+    (NULL, 0 bytes) when nothing differs - a state equal to the first snapshot is still a snapshot and must be appended
+    (an empty delta plus its trailer). Nothing on the append path may bail out, or skip the write, on the diff buffer being
+    NULL or its size being 0."""
+    from .. import normal
+    tu = cfront.load_tu('simulationarchive.c')
+    fns = normal.with_new_helpers(tu, 'reb_simulation_save_to_file')
+    diffvars = set()
+    for f_ in fns:
+        for e in walk(cfront.body(f_)):
+            if e.get('kind') == 'CallExpr' and callee_name(e) == 'reb_binary_diff':
+                a = call_args(e)
+                for x in a[4:6]:
+                    diffvars.add(render(x).replace('&', '').replace('(', '').replace(')', '').replace('*', '').strip())
+    # values returned by a helper that returns the diff buffer
+    changed = True
+    while changed:
+        changed = False
+        for f_ in fns:
+            rets = [render(x['inner'][0]).strip('()') for x in walk(cfront.body(f_)) if x.get('kind') == 'ReturnStmt' and x.get('inner')]
+            if any(r_ in diffvars for r_ in rets):
+                for g_ in fns:
+                    for e in walk(cfront.body(g_)):
+                        tgt = None
+                        if is_assign(e) and strip(e['inner'][1], casts=True).get('kind') == 'CallExpr' and callee_name(strip(e['inner'][1], casts=True)) == f_['name']:
+                            tgt = render(e['inner'][0])
+                        if e.get('kind') == 'VarDecl' and 'init' in e:
+                            init = [c for c in e.get('inner', []) if c.get('kind') not in ('FullComment',)]
+                            if init and strip(init[-1], casts=True).get('kind') == 'CallExpr' and callee_name(strip(init[-1], casts=True)) == f_['name']:
+                                tgt = e['name']
+                        if tgt and tgt not in diffvars:
+                            diffvars.add(tgt)
+                            changed = True
+    anchor(diffvars, 'reb_simulation_save_to_file computes the delta with reb_binary_diff')
+    n = 0
+    for f_ in fns:
+        for ifs in walk(cfront.body(f_)):
+            if ifs.get('kind') != 'IfStmt':
+                continue
+            names = {x['referencedDecl']['name'] for x in walk(ifs['inner'][0]) if x.get('kind') == 'DeclRefExpr'}
+            if not (names & diffvars):
+                continue
+            n += 1
+            for br in ifs['inner'][1:]:
+                if not br.get('kind'):
+                    continue
+                leaves = [x for x in walk(br) if x.get('kind') == 'ReturnStmt' or (x.get('kind') == 'CallExpr' and callee_name(x) in ('reb_simulation_warning', 'reb_simulation_error'))]
+                if leaves:
+                    ctx.report(rule, '%s:emptydelta' % f_['name'], 'src/simulationarchive.c:%s %s' % (line_of(ifs), f_['name']),
+                               'the append path tests the delta buffer (%s) and leaves or warns: an empty delta - the state equals the first snapshot - is a valid snapshot, dropping it shifts the index of every later one' % render(ifs['inner'][0]))
+                    break
+    ctx.covered(rule, 'append path: no exit or warning depends on the delta buffer being empty (%s)' % ', '.join(sorted(diffvars)), n + 1, floor=1)
+
+
 def run(ctx):
+    rule_empty_delta(ctx)
     rule_counter_update(ctx)
     rule_index_growth(ctx)
     rule_index_arrays(ctx)
